@@ -4,6 +4,7 @@ import (
 	"fmt"
 	"math/big"
 	"sort"
+	"strings"
 
 	"pgregory.net/rapid"
 )
@@ -60,6 +61,9 @@ type Knobs struct {
 	NoBalanceOrigins bool
 	// OverdraftFlag: the overdraft() function may be used (the case carries the feature flag)
 	OverdraftFlag bool
+	// POverUnity: chance that an allotment has a `remaining` clause while its other portions
+	// add up to more than one (and `remaining` anywhere, not only last)
+	POverUnity int
 	// PReuse: chance that a value is written through an already declared variable of the
 	// same type (and, for accounts / assets, the same value) instead of a fresh spelling
 	PReuse int
@@ -317,7 +321,8 @@ func (g *TG) AcctExpr(a string) *Expr {
 }
 
 func (g *TG) StrExpr(s string) *Expr {
-	if g.pct("str.var", g.K.PVarRepr) {
+	// quotes, backslashes and line breaks cannot be written in a string literal
+	if strings.ContainsAny(s, "\"\\\n\r") || g.pct("str.var", g.K.PVarRepr) {
 		return Var(g.declare("string", s))
 	}
 	return Str(s)
@@ -364,6 +369,19 @@ func (g *TG) Portions(k int) []Allot {
 		tot = 1
 	}
 	out := make([]Allot, k)
+	if k >= 2 && g.pct("allot.overunity", g.K.POverUnity) {
+		// portions above one in total, plus a `remaining` clause somewhere
+		at := g.n("allot.overunity.at", 0, k-1)
+		for i := range out {
+			if i == at {
+				out[i] = Allot{Kind: ARemaining}
+				continue
+			}
+			w := int64(g.n("allot.overunity.w", 1, 3))
+			out[i] = g.portionSpelling(big.NewRat(w, 3), w, 3)
+		}
+		return out
+	}
 	useRemaining := g.pct("allot.remaining", 35)
 	for i := range ws {
 		r := big.NewRat(ws[i], tot)
@@ -604,7 +622,7 @@ func (g *TG) anyValueExpr() *Expr {
 	case 1:
 		return g.AssetExpr(pickS(g, "any.asset", g.K.Assets))
 	case 2:
-		return g.StrExpr(pickS(g, "any.str", []string{"", "hello", "a b", "é"}))
+		return g.StrExpr(pickS(g, "any.str", []string{"", "hello", "a b", "é", "say \"hi\"", "c:\\temp\\new", "line\nbreak", "tab\there", "🙂"}))
 	case 3:
 		return g.NumExpr(g.Amount("any.num"), 0)
 	case 4:
